@@ -830,6 +830,14 @@ func (w *world) genOp(c *cClient, kind string) *opSpec {
 		}
 		lo := c.lockOwnerByKey(lok)
 		off, length, _ := w.drawRange()
+		if !dev && w.pct(30, "unlockWholeFile") {
+			// Release everything the lock-owner holds on this file:
+			// lock state without bytes (and lock-owners whose files
+			// differ in that respect) is what RELEASE_LOCKOWNER, CLOSE
+			// and a later LOCK with the same lock-owner then meet.
+			off, length = 0, math.MaxUint64
+			w.label("locku_whole_file")
+		}
 		op := &opSpec{Kind: kLocku, FH: co.fh, LockOwner: lok, LockSeq: lo.nxt(), Stateid: co.locks[lok], LockType: int32(pick(w, "lt", []int{1, 2})), Offset: off, Length: length}
 		if dev {
 			if pick(w, "devkind", []string{"state", "range"}) == "range" {
@@ -1140,6 +1148,18 @@ func (w *world) genLock(c *cClient, dev bool) *opSpec {
 		for _, x := range cands {
 			for _, other := range c.allOpens() {
 				if _, have := other.locks[x.key]; have && other != co && other.fh == co.fh {
+					lo = x
+				}
+			}
+		}
+	}
+	if w.pct(30, "preferOwnerOfOtherFile") {
+		// A lock-owner that already has lock state on another file:
+		// RELEASE_LOCKOWNER, lease expiry and CLOSE then meet a
+		// lock-owner with several files in different states.
+		for _, x := range cands {
+			for _, other := range c.allOpens() {
+				if _, have := other.locks[x.key]; have && other.fh != co.fh {
 					lo = x
 				}
 			}
